@@ -180,7 +180,9 @@ def c12(tier):
     q = tier == 'quick'
     jobs = []
     for n in range(0, 3 if q else 4):
-        for mode in (0, 1):
+        for mode in (0, 1, 2, 3):
+            if mode >= 2 and n == 0:
+                continue
             jobs.append((H('parser/lexer', 'HarnessC12String'), P('parser/lexer'), None, {'params': {'n': n, 'mode': mode}, 'label': 'string n=%d mode=%d' % (n, mode), 'split_after': 30, 'job_timeout': 1500}))
     for form in range(6):
         for n in range(1, 3 if q else 4):
@@ -428,7 +430,32 @@ def c09(tier):
     return jobs, meta
 
 
+def c08(tier):
+    import templates
+    q = tier == 'quick'
+    srcs = templates.gen(1) if q else templates.gen(2, quick=True)
+    srcs = [s for s in srcs if 'Twice' not in s and 'PtrAdd' not in s]
+    if q:
+        srcs = srcs[SEED[0] % 2::2]
+    srcs += ['A / B', 'Xs[A]', 'S matches T', 'T matches S', 'map(Ss, {S matches #})', 'A in [1, 2, 3]', 'S in ["a", "b"]', 'A in 1..3', 'len(1..3)', '[1, 2, 3][A]', 'Ptr.V']
+    jobs = []
+    for n, src in enumerate(srcs):
+        jobs.append((H('.', 'HarnessC08Run'), P('.'), None, {'params': {'src': src, 'mapenv': 1 if n % 4 == 3 else 0}, 'label': 'run ' + src, 'job_timeout': 300 if q else 900}))
+    for src in ['A + B', 'A + Twice(2)', 'S matches "^a"', 'A in [1, 2, 3]', 'count(Xs, {# > A})', 'Ptr.Next.V', 'M.a + 1', 'Foo + 1', 'A +', 'X + Inner.C', 'Deep.E']:
+        for mapenv in (0, 1, 2):
+            jobs.append((H('.', 'HarnessC08Compile'), P('.'), None, {'params': {'src': src, 'mapenv': mapenv}, 'label': 'compile %s [mapenv %d]' % (src, mapenv)}))
+    meta = {
+        'explanation': 'REDUCED CLAIM (schedules are not enumerated): race freedom for every schedule follows from the lemma that no step of a run, and no step of a compilation, stores into state another goroutine can reach. The real VM.Run (two runs per program, symbolic environment values driving every branch, struct and map environments, run-time failures included) and the real expr.Compile (options with Env, Operator, ConstExpr, Patch) are executed symbolically while the interpreter reports every store (field or element store, map update, in-place append) whose target is reachable from the program (bytecode, constants incl. regexps, folded slices, lookup maps, call descriptors, locations, source), the environment value, the option/sample-environment objects or any package-level variable of the library; also asserted: each run returns what it returns alone. Counterexamples are replayed natively by running the same program from 4 goroutines under the Go race detector',
+        'bounds': {'templates': len(srcs), 'runs per program': 2, 'arrays': '<= 2'},
+        'outside': ['real interleavings and the Go memory model', 'thread safety of the standard library stubs (regexp.MatchString, reflect reads)', 'environment functions (the caller\'s)'],
+        'assumptions': COMMON_ASSUME + ['a store the interpreter does not see (inside a stubbed standard-library function) is not reported'],
+        'must_reach': ['c08.ran', 'c08.compiled'],
+    }
+    return jobs, meta
+
+
 PROPS = {
+    'C08': c08,
     'C09': c09,
     'C05': c05,
     'C13': c13,
